@@ -37,6 +37,8 @@ def run(chk):
     chk.prove()
     import ext_static
     ext_static.run_streams(chk, chk.tier == "quick")
+    import ext_static2
+    ext_static2.run_streams(chk, chk.tier == "quick")
     R = asm_streams.Runner(("debug",))
     quick = chk.tier == "quick"
     rng = chk.rng.fork("c08")
@@ -158,6 +160,9 @@ def run(chk):
 def replay(chk, rep):
     R = asm_streams.Runner(("debug",))
     r = rep.get("replay", rep)
+    if r.get("kind") in ("static2", "static2_switch"):
+        import ext_static2
+        return ext_static2.replay(chk, rep)
     if r.get("kind") in ("static", "static_switch", "static_tables", "defines"):
         import ext_static
         return ext_static.replay(chk, rep)
